@@ -22,3 +22,26 @@ unsigned int G; ElemRef E_G, E_P, E_PP, E_C1, E_C2, E_S, T; ElemRef H;
 #define S  SIB(G)
 #define N vector__size
 #define REACH(tag) __CPROVER_assert(0, "REACH " tag)
+/* the contract of BinaryHeap::percolateUp (one definition: the body is proved against it in c11_percolateUp_unbounded, callers are verified against it) */
+/* pre-state heap order instances, excluding relations whose child is pos or whose parent is pos */
+/* grand relation for children of pos */
+/* handles: of the ghost element H and of the element at pos */
+/* C11.order: heap order at G afterwards, unless G is a child of pos and nothing moved (then slot G is untouched) */
+/* C11.handle: every element's handle still finds it */
+/* frame: slots that are not ancestors-or-self of pos keep their element; the multiset is permuted along the path only */
+#define PERCOLATE_UP_CONTRACT \
+__CPROVER_requires(N >= 1 && N <= 65535 && pos < N && G < N) \
+__CPROVER_requires(E_G == vector_[G] && T == vector_[pos]) \
+__CPROVER_requires(G > 0 ==> E_P == vector_[P]) \
+__CPROVER_requires((G > 0 && P > 0) ==> E_PP == vector_[PP]) \
+__CPROVER_requires((G > 0 && G != pos && P != pos) ==> !lt_(D(vector_[G]), D(vector_[P]))) \
+__CPROVER_requires((G > 0 && P > 0 && P != pos) ==> !lt_(D(vector_[P]), D(vector_[PP]))) \
+__CPROVER_requires((G > 0 && P == pos && pos > 0) ==> !lt_(D(vector_[G]), D(vector_[PP]))) \
+__CPROVER_requires(F_position[H] < N && vector_[F_position[H]] == H) \
+__CPROVER_requires(F_position[vector_[pos]] == pos) \
+__CPROVER_assigns(vector_, F_position) \
+__CPROVER_ensures((G > 0 && !(P == pos && vector_[pos] == T)) ==> !lt_(D(vector_[G]), D(vector_[P]))) \
+__CPROVER_ensures((G > 0 && P == pos && vector_[pos] == T) ==> vector_[G] == E_G) \
+__CPROVER_ensures(F_position[H] < N && vector_[F_position[H]] == H) \
+__CPROVER_ensures(!ANC(pos, G) ==> vector_[G] == E_G) \
+__CPROVER_ensures(N == __CPROVER_old(N))
